@@ -167,7 +167,9 @@ impl HBox {
             list,
             ..Default::default()
         };
-        let mut total_glue = common::Glue::default();
+        // Total stretch and shrink for each glue order (TeX.2021.650).
+        let mut total_stretch = [common::Scaled::ZERO; 4];
+        let mut total_shrink = [common::Scaled::ZERO; 4];
         let mut natural_width = common::Scaled::ZERO;
         for elem in &hbox.list {
             // TeX.2021.658
@@ -218,35 +220,8 @@ impl HBox {
                 }
                 H::Glue(glue) => {
                     // TeX.2021.656
-                    use std::cmp::Ordering::*;
-                    match total_glue.shrink_order.cmp(&glue.value.shrink_order) {
-                        Less => {
-                            total_glue.shrink = glue.value.shrink;
-                            total_glue.shrink_order = glue.value.shrink_order;
-                        }
-                        Equal => {
-                            total_glue.shrink += glue.value.shrink;
-                        }
-                        Greater => {
-                            // Do nothing.
-                            // This glue has smaller order than some other glue in the box, so will
-                            // not be used for shrinking.
-                        }
-                    }
-                    match total_glue.stretch_order.cmp(&glue.value.stretch_order) {
-                        Less => {
-                            total_glue.stretch = glue.value.stretch;
-                            total_glue.stretch_order = glue.value.stretch_order;
-                        }
-                        Equal => {
-                            total_glue.stretch += glue.value.stretch;
-                        }
-                        Greater => {
-                            // Do nothing.
-                            // This glue has smaller order than some other glue in the box, so will
-                            // not be used for stretching.
-                        }
-                    }
+                    total_stretch[glue.value.stretch_order as usize] += glue.value.stretch;
+                    total_shrink[glue.value.shrink_order as usize] += glue.value.shrink;
                     // TODO: implement leader support.
                     [glue.value.width, common::Scaled::ZERO, common::Scaled::ZERO]
                 }
@@ -262,6 +237,26 @@ impl HBox {
             }
             if d > hbox.depth {
                 hbox.depth = d;
+            }
+        }
+
+        // The glue that stretches (or shrinks) is the glue of the highest order whose
+        // total is non-zero (TeX.2021.659 and TeX.2021.665). Glue of a higher
+        // order whose amounts cancel out, or are all zero, is not considered.
+        let mut total_glue = common::Glue::default();
+        for order in [
+            GlueOrder::Normal,
+            GlueOrder::Fil,
+            GlueOrder::Fill,
+            GlueOrder::Filll,
+        ] {
+            if total_stretch[order as usize] != common::Scaled::ZERO {
+                total_glue.stretch = total_stretch[order as usize];
+                total_glue.stretch_order = order;
+            }
+            if total_shrink[order as usize] != common::Scaled::ZERO {
+                total_glue.shrink = total_shrink[order as usize];
+                total_glue.shrink_order = order;
             }
         }
 
